@@ -126,8 +126,8 @@ class _Inputs:
             if isinstance(x, ast.Name):
                 self.defs.setdefault(x.id, []).append(value)
 
-    def of(self, nodes, skip_attr=None):
-        out, seen = set(), set()
+    def of(self, nodes, skip_attr=None, skip_names=()):
+        out, seen = set(), set(skip_names)
         work = list(nodes)
         while work:
             e = work.pop()
@@ -156,13 +156,21 @@ class _Inputs:
 def _store_sites(fi):
     """(stmt, S expr, key expr, value expr) for memo-like stores in fi"""
     for n in walk_local(fi.node):
-        if isinstance(n, ast.Assign) and len(n.targets) == 1:
-            t = n.targets[0]
-            if isinstance(t, ast.Subscript) and dotted(t.value):
-                yield n, t.value, t.slice, n.value
-            elif isinstance(t, ast.Attribute) and dotted(t) and isinstance(n.value, ast.Tuple) and len(n.value.elts) == 2 \
-                    and isinstance(t.value, ast.Name) and t.value.id in ('self', 'cls'):
-                yield n, t, n.value.elts[0], n.value.elts[1]
+        if isinstance(n, ast.Assign):
+            for t in n.targets:
+                if isinstance(t, ast.Subscript) and dotted(t.value):
+                    yield n, t.value, t.slice, n.value
+                elif isinstance(t, ast.Attribute) and dotted(t) and isinstance(t.value, ast.Name) and t.value.id in ('self', 'cls'):
+                    if isinstance(n.value, ast.Tuple) and len(n.value.elts) == 2 and len(n.targets) == 1:
+                        yield n, t, n.value.elts[0], n.value.elts[1]
+                    elif len(n.targets) == 1 and not isinstance(n.value, ast.Constant):
+                        # "key of the last result": `self._last_key = key`, compared with `key == self._last_key`
+                        want = norm(n.value)
+                        for c in walk_local(fi.node):
+                            if isinstance(c, ast.Compare) and len(c.ops) == 1 and isinstance(c.ops[0], (ast.Eq, ast.NotEq)) \
+                                    and {norm(c.left), norm(c.comparators[0])} == {want, norm(t)}:
+                                yield n, t, n.value, ast.Constant(value=None)
+                                break
         elif isinstance(n, ast.Expr) and isinstance(n.value, ast.Call) and isinstance(n.value.func, ast.Attribute) \
                 and n.value.func.attr == 'setdefault' and len(n.value.args) == 2 and dotted(n.value.func.value):
             yield n, n.value.func.value, n.value.args[0], n.value.args[1]
@@ -179,6 +187,9 @@ def _lookups(fi, s_txt):
                 and norm(n.func.value) == s_txt:
             out.append(n)
         elif isinstance(n, ast.Subscript) and isinstance(n.ctx, ast.Load) and norm(n.value) == s_txt:
+            out.append(n)
+        elif isinstance(n, ast.Compare) and len(n.ops) == 1 and isinstance(n.ops[0], (ast.Eq, ast.NotEq)) \
+                and s_txt in (norm(n.left), norm(n.comparators[0])):
             out.append(n)
     return out
 
@@ -253,7 +264,21 @@ def memo_sites(ctx, funcs, rule='MEMO'):
             miss = list(blk[:blk.index(st)]) + [v_expr]
             guard = None
             hit_block = []
-            if isinstance(owner, ast.If):
+            # (a) `if <asks the cache>: ...; return` in front of the store, in any enclosing block
+            cur = st
+            while guard is None and cur is not None and cur is not fi.node:
+                o2, f2, b2 = _block_of(cur)
+                if b2 is not None:
+                    for prev in b2[:b2.index(cur)]:
+                        if isinstance(prev, ast.If) and _always_exits(prev.body) and \
+                                any(l is x for l in looks for x in ast.walk(prev.test)):
+                            guard = prev
+                            hit_block = prev.body
+                            miss = list(b2[b2.index(prev) + 1:b2.index(cur)]) + [cur if cur is not st else v_expr]
+                cur = o2 if b2 is not None else None
+            if guard is not None:
+                pass
+            elif isinstance(owner, ast.If):
                 guard = owner
                 hit_block = owner.orelse if field == 'body' else owner.body
                 # `if hit: ...; return` in front of the If that holds the store is still the hit path
@@ -303,16 +328,24 @@ def memo_sites(ctx, funcs, rule='MEMO'):
                     if isinstance(c, ast.Attribute) and isinstance(c.ctx, ast.Store) and isinstance(c.value, ast.Name) \
                             and c.value.id == 'self':
                         produced.add(c.attr)
+            for m in miss:
+                for c in ast.walk(m):
+                    if isinstance(c, ast.Call) and isinstance(c.func, ast.Attribute) and c.func.attr in _MUTATORS \
+                            and isinstance(c.func.value, ast.Attribute) and norm(c.func.value.value) == 'self':
+                        produced.add(c.func.value.attr)
             MI -= {f"a:self.{x}" for x in produced}
             # what takes part in the look-up by value / only by identity
-            by_value_nodes, by_ident_nodes = [k_expr], []
+            by_value_nodes, by_ident_nodes, cond_nodes = [k_expr], [], []
             test = guard.test if isinstance(guard, ast.If) else None
             if test is not None:
                 for c in ast.walk(test):
                     if isinstance(c, ast.Compare):
                         ops = c.ops
                         operands = [c.left] + list(c.comparators)
-                        if all(isinstance(o, (ast.Is, ast.IsNot)) for o in ops):
+                        if any(isinstance(x, ast.Constant) for x in operands) and len(operands) == 2 and not any(
+                                isinstance(o, (ast.In, ast.NotIn)) for o in ops):
+                            cond_nodes.append(c)        # a condition on an input (`candidates is None`), see below
+                        elif all(isinstance(o, (ast.Is, ast.IsNot)) for o in ops):
                             by_ident_nodes += operands
                         elif any(isinstance(x, ast.Call) and dotted(x.func) in ('len', 'id') for x in operands):
                             by_ident_nodes += operands
@@ -321,18 +354,44 @@ def memo_sites(ctx, funcs, rule='MEMO'):
             for l in looks:
                 if isinstance(l, ast.Call):
                     by_value_nodes += l.args[:1]
+                elif isinstance(l, ast.Compare) and isinstance(l.ops[0], (ast.Eq, ast.NotEq)):
+                    by_value_nodes += [x for x in (l.left, l.comparators[0]) if norm(x) != s_txt]
                 elif isinstance(l, ast.Compare):
                     by_value_nodes.append(l.left)
                 elif isinstance(l, ast.Subscript):
                     by_value_nodes.append(l.slice)
-            KI = inp.of(by_value_nodes, skip_attr)
-            ID = inp.of(by_ident_nodes, skip_attr) - KI
+            # (the store itself is not an input: following it would lead to the values kept in it)
+            root_ = s_expr
+            while isinstance(root_, (ast.Attribute, ast.Subscript)):
+                root_ = root_.value
+            skip_n = (root_.id,) if isinstance(root_, ast.Name) and root_.id not in ('self', 'cls') else ()
+            KI = inp.of(by_value_nodes, skip_attr, skip_n)
+            ID = inp.of(by_ident_nodes, skip_attr, skip_n) - KI
             fixed = set()
             if life == 'outer-call':
                 fixed = {a for a in MI if a.startswith(('c:', 'g:'))}
             if life == 'object':
                 fixed = {a for a in MI if a.startswith('g:')} & KI   # nothing is fixed for an object-lived cache
             missing = sorted(MI - KI - fixed)
+            # an input that is not in the key but is pinned by a condition of the hit test
+            # (`if candidates is None and text in CACHE`) is fine if the cache is FILLED under the
+            # same condition; filled unconditionally, it serves a value computed for other inputs
+            if cond_nodes and missing:
+                from ..srcmodel import facts_at, literals as _lits
+                store_facts = {(t, p) for _e, t, p in facts_at(st)}
+                for c in cond_nodes:
+                    atoms = inp.of([c], skip_attr, skip_n) & set(missing)
+                    if not atoms:
+                        continue
+                    cl = [(t, p) for _e, t, p in _lits([(c, True)])]
+                    pinned = all(x in store_facts for x in cl)
+                    pretty_ = ', '.join(a.split(':', 1)[1] for a in sorted(atoms))
+                    ctx.check(pinned, rule, f"{construct}: the cache is filled under the condition it is read under (`{norm(c)}`)",
+                              detail_bad=f"a hit requires `{norm(c)}`, but `{norm(st)[:50]}` stores the result for EVERY value of "
+                                         f"{pretty_}: a call with another {pretty_} leaves its answer under the same key, and the "
+                                         f"next ordinary call is served that answer",
+                              key=f"{rule}|{fi.qualname}|{s_txt}|fill-condition|{','.join(sorted(atoms))}", where=where)
+                    missing = [a for a in missing if a not in atoms]
             ident = [a for a in missing if a in ID]
             plain = [a for a in missing if a not in ID]
             pretty = lambda xs: ', '.join(x.split(':', 1)[1] for x in xs)
@@ -350,6 +409,10 @@ def memo_sites(ctx, funcs, rule='MEMO'):
             W = set()
             for m in miss:
                 for c in ast.walk(m):
+                    if isinstance(c, ast.Call) and isinstance(c.func, ast.Attribute) and c.func.attr in _MUTATORS \
+                            and isinstance(c.func.value, ast.Attribute) and isinstance(c.func.value.value, ast.Name) \
+                            and c.func.value.value.id == 'self':
+                        W.add(c.func.value.attr)        # self.w_flags.extend(...) only on a miss
                     if isinstance(c, ast.Call) and isinstance(c.func, ast.Attribute) and isinstance(c.func.value, ast.Name) \
                             and c.func.value.id == 'self':
                         ci = _owner_class(fi)
@@ -363,6 +426,21 @@ def memo_sites(ctx, funcs, rule='MEMO'):
                         if isinstance(c, ast.Attribute) and isinstance(c.value, ast.Name) and c.value.id == 'self':
                             H.add(c.attr)
                 lost = sorted(W - H - ({skip_attr} if skip_attr else set()))
+                # attributes restored by name at run time (setattr loop, __dict__.update): not decided here
+                dynamic = any(isinstance(c, ast.Call) and (
+                    (dotted(c.func) == 'setattr' and c.args and norm(c.args[0]) == 'self'
+                     and not (len(c.args) > 1 and isinstance(c.args[1], ast.Constant)))
+                    or norm(c.func) in ('self.__dict__.update', 'vars(self).update')) for hs in hit_block for c in ast.walk(hs))
+                for hs in hit_block:
+                    for c in ast.walk(hs):
+                        if isinstance(c, ast.Call) and dotted(c.func) == 'setattr' and len(c.args) > 1 \
+                                and norm(c.args[0]) == 'self' and isinstance(c.args[1], ast.Constant):
+                            H.add(c.args[1].value)
+                lost = sorted(set(lost) - H)
+                if lost and dynamic:
+                    ctx.undecided(rule, f"{construct}: a hit restores every attribute the skipped call sets",
+                                  "the hit path restores attributes by computed name (setattr loop)")
+                    continue
                 ctx.check(not lost, rule, f"{construct}: a hit restores every attribute the skipped call sets",
                           f"{sorted(W)}",
                           f"the skipped call writes / grows self.{', self.'.join(lost)}; the hit path never touches "
